@@ -22,6 +22,9 @@ def run(tier, seed):
     # on real threads (controlled scheduler), the final representation judged with the same RepViolation operator
     from props import c04
     c04.sched(out, "all2x1", ["--mode", "all2x1"], nworkers=8)
+    # calls that take several guards by design (recursive chmod / chown, copy with options) against every single-step mutator
+    # (and seeded pairs of them) on a second thread, every interleaving: the quiescent representation must be well formed
+    c04.sched(out, "composite", ["--mode", "composite", "--n", "400" if thorough else "40", "--cap", "2000" if thorough else "400", "--seed", str(seed)], nworkers=8, chunk=800)
     out.assumptions += ["deeper concurrent programs and stress runs are judged by the C04 check (same RepViolation operator)"]
     out.finish(dict(rule="RepViolation evaluated on the projected representation (entries, files, child sets, cwd/root, poisoned flag) after every step; "
                          "steps come from the BFS of the real Memfs (<= 1 link%s) and from seeded histories in which half of the arguments are out of domain; "
